@@ -168,6 +168,7 @@ pub fn child_main(dir: PathBuf, serve: bool) -> ! {
     }
 
     let mut followers: HashMap<String, Follower> = HashMap::new();
+    let mut reported = 0usize;
     let stdin = std::io::stdin();
     let mut line = String::new();
     let mut reader = stdin.lock();
@@ -192,7 +193,6 @@ pub fn child_main(dir: PathBuf, serve: bool) -> ! {
             let _ = o.flush();
             std::process::exit(0);
         }
-        let before = PANICS.lock().unwrap().len();
         let store2 = store.clone();
         let req2 = req.clone();
         let res = std::panic::catch_unwind(std::panic::AssertUnwindSafe(|| {
@@ -202,9 +202,11 @@ pub fn child_main(dir: PathBuf, serve: bool) -> ! {
             Ok(v) => v,
             Err(_) => json!({"panic": true}),
         };
+        // every panic since the last reply (also those of background threads while idle)
         let p = PANICS.lock().unwrap();
-        if p.len() > before {
-            resp["panics"] = json!(p[before..].to_vec());
+        if p.len() > reported {
+            resp["panics"] = json!(p[reported..].to_vec());
+            reported = p.len();
         }
         drop(p);
         let mut o = out.lock();
@@ -412,6 +414,38 @@ fn exec_op(
             Ok(h) => json!({"hash": h.to_string()}),
             Err(e) => json!({"err": e.to_string()}),
         },
+        "cas_stream_insert" => {
+            // the streaming writer (size unknown up front), in chunks
+            use std::io::Write as _;
+            let bytes = unb64(req["b64"].as_str().unwrap_or(""));
+            let chunk = req["chunk"].as_u64().unwrap_or(8192).max(1) as usize;
+            if req["async"].as_bool().unwrap_or(false) {
+                use tokio::io::AsyncWriteExt;
+                let r: Result<ssri::Integrity, String> = rt.block_on(async {
+                    let mut w = store.cas_writer().await.map_err(|e| e.to_string())?;
+                    for c in bytes.chunks(chunk) {
+                        w.write_all(c).await.map_err(|e| e.to_string())?;
+                    }
+                    w.commit().await.map_err(|e| e.to_string())
+                });
+                match r {
+                    Ok(h) => json!({"hash": h.to_string()}),
+                    Err(e) => json!({"err": e}),
+                }
+            } else {
+                let r: Result<ssri::Integrity, String> = (|| {
+                    let mut w = store.cas_writer_sync().map_err(|e| e.to_string())?;
+                    for c in bytes.chunks(chunk) {
+                        w.write_all(c).map_err(|e| e.to_string())?;
+                    }
+                    w.commit().map_err(|e| e.to_string())
+                })();
+                match r {
+                    Ok(h) => json!({"hash": h.to_string()}),
+                    Err(e) => json!({"err": e}),
+                }
+            }
+        }
         "cas_read" => {
             let h: Result<ssri::Integrity, _> = req["hash"].as_str().unwrap_or("").parse();
             match h {
